@@ -3,7 +3,9 @@
    model computes it), killing the process after any number k of system calls of the repaired
    (write-temporary-then-rename) protocol leaves the database records exactly as after a whole
    number j of those effects.  Hence every record is seen in its old or its new form, never
-   truncated, and records the operation does not target are untouched. *)
+   truncated, and records the operation does not target are untouched.
+   Second layer (below, from crash_db_is_effect_prefix on): the commands of C06 on this store -
+   which command produces which effects and what a fresh reader sees at every crash point. *)
 From Eupsv Require Import Base.Base Base.BaseLemmas Model.Crash Proofs.Crash.
 From Coq Require Import Lia.
 
